@@ -453,6 +453,91 @@ def rule_x(F):
     return res
 
 
+def rule_k(F):
+    """C02.K: the collector never overwrites the Protected marker. Every store to `<obj>.marker` in RuntimeData::gc lies
+    under a test of the same object's marker that excludes Protected (`if !matches!(m, Protected)`,
+    `if matches!(m, White)`); an unconditional store would turn a guarded object gray/black, the unmark phase then whitens
+    it and the next collection frees it although its guard is alive."""
+    from cao.facts import hir_walk, hir_strip, hir_local_id, pat_variants
+    from cao import hirutil as hu
+    res = []
+    gc = F.fn("vm::runtime::RuntimeData::gc")
+    adt = F.adt("vm::runtime::cao_lang_object::GcMarker")
+    ALL = set(v["name"] for v in adt["variants"])
+    if "Protected" not in ALL:
+        raise AnchorMissing("GcMarker::Protected")
+
+    def base_of(e):
+        e = hu.strip_all(e)
+        while e is not None and e.get("k") == "field":
+            e = hu.strip_all(e["e"])
+        return hir_local_id(e) if e is not None else None
+
+    def marker_test(c):
+        """-> (base local, set of marker variants for which the condition is true) or None"""
+        c = hu.strip_casts(c)
+        if c is None:
+            return None
+        if c.get("k") == "un" and c["op"] == "Not":
+            r = marker_test(c["e"])
+            return (r[0], ALL - r[1]) if r else None
+        if c.get("k") == "match":
+            sc = hu.strip_all(c["scrut"])
+            if sc.get("k") == "field" and sc["name"] == "marker":
+                true_set, seen = set(), set()
+                for a in c["arms"]:
+                    b = hu.strip_casts(a["body"])
+                    val = b["lit"]["v"] if b is not None and b.get("k") == "lit" and b["lit"]["k"] == "bool" else None
+                    if val is None:
+                        return None
+                    names = set(n.rsplit("::", 1)[-1] for n, _s, _p in pat_variants(a["pat"]) if "::" in n)
+                    if not names:
+                        names = ALL - seen   # wildcard
+                    names -= seen
+                    seen |= names
+                    if val:
+                        true_set |= names
+                return (base_of(sc["e"]), true_set)
+        return None
+
+    anc = hu.control_ancestors(gc.hir["body"])
+    ifs = {id(x): x for x in hir_walk(gc.hir["body"]) if x.get("k") == "if"}
+    n = 0
+    counts = {}
+    for x in hir_walk(gc.hir["body"]):
+        if x.get("k") != "assign":
+            continue
+        l = hir_strip(x["l"])
+        if l.get("k") != "field" or l["name"] != "marker":
+            continue
+        base = base_of(l["e"])
+        r = hu.strip_all(x["r"])
+        stored = short(r["path"]["res"].get("path", "")).rsplit("::", 1)[-1] if r.get("k") == "path" else "?"
+        allowed = set(ALL)
+        for kind, nid in anc.get(id(x), ()):
+            node = ifs.get(nid)
+            if node is None or kind not in ("then", "else"):
+                continue
+            t = marker_test(node["cond"])
+            if t is None or t[0] != base or base is None:
+                continue
+            allowed &= t[1] if kind == "then" else (ALL - t[1])
+        c = counts.get(stored, 0)
+        counts[stored] = c + 1
+        key = "C02/K/gc/marker-store-%s%s" % (stored, "" if c == 0 else "#%d" % c)
+        n += 1
+        if "Protected" in allowed and stored != "Protected":
+            res.append(bad("C02.K", key, gc.loc(x["ln"]),
+                           "gc stores GcMarker::%s into an object's marker without first excluding Protected: an object held by an "
+                           "ObjectGcGuard that is reached here loses its protection, the unmark phase whitens it and the next collection "
+                           "frees it while the guard is alive" % stored))
+        else:
+            res.append(ok("C02.K", key, gc.loc(x["ln"]), "store of %s only when the marker is in %s" % (stored, sorted(allowed))))
+    if n < 4:
+        raise AnchorMissing("stores to marker in RuntimeData::gc (found %d)" % n)
+    return res
+
+
 def rule_r(F):
     from cao import rooting
     res = []
@@ -579,6 +664,7 @@ def _arity(path):
 
 
 RULES = [
+    Rule("C02.K", rule_k, 9, "the collector never overwrites the Protected marker"),
     Rule("C02.Roots", rule_roots, 7, "gc's root set covers every reference-bearing field of RuntimeData/CallFrame"),
     Rule("C02.M", rule_m, 6, "the mark loop follows every reference-bearing field of every object kind"),
     Rule("C02.P", rule_p, 2, "Protected objects are traced"),
